@@ -260,3 +260,22 @@ class SimProbe:
         for t, letter, _ in self.trace:
             out[t] = out.get(t, "") + letter
         return out
+
+
+def poke(obj, *others):
+    """What any client may do with an object without meaning to change it: print it, compare it (with itself, with a copy, with
+    unrelated values), hash it, test its truth value and length, look for it in a list, shallow-copy it. None of this may alter the
+    object's behaviour; exceptions (unhashable, no len) are the object's right and are ignored."""
+    import copy as _copy
+    ops = [repr, str, lambda x: x == x, lambda x: x != x, lambda x: x == None, lambda x: x == 0, lambda x: x != "x",  # noqa: E711
+           hash, bool, len, lambda x: x in [None, 1, "a"], _copy.copy, dir]
+    for o in others:
+        ops += [lambda x, o=o: x == o, lambda x, o=o: o == x, lambda x, o=o: x != o, lambda x, o=o: x in [o], lambda x, o=o: [o].count(x)]
+    n = 0
+    for f in ops:
+        try:
+            f(obj)
+            n += 1
+        except Exception:
+            pass
+    return n
